@@ -14,6 +14,7 @@ for sid in ids:
     a = subprocess.run("git -C /repo apply --3way %s/patch.diff && git -C /repo reset -q" % d, shell=True, stdout=subprocess.PIPE, stderr=subprocess.STDOUT, text=True)
     try:
         if a.returncode != 0:
+            subprocess.run("git -C /repo reset -q --hard HEAD", shell=True)
             results[sid] = {"property": prop, "detected": None, "note": "patch does not apply: " + a.stdout[-200:]}
             print(sid, "PATCH DOES NOT APPLY")
             continue
@@ -26,5 +27,5 @@ for sid in ids:
                         "violation_lines": viol[:4], "failed": [f[:300] for f in failed[:4]], "seconds": round(time.time() - t0, 1)}
         print(sid, "DETECTED" if results[sid]["detected"] else "MISSED (exit %d)" % p.returncode, viol[:1])
     finally:
-        subprocess.run("git -C /repo checkout -q -- . ", shell=True)
+        subprocess.run("git -C /repo reset -q --hard HEAD", shell=True)
 json.dump(results, open(resf, "w"), indent=1, sort_keys=True)
